@@ -18,8 +18,13 @@ GROUPS = {
             Rec("CellNd", {"coordinate": LI}),
             Rec("GridCells", {"dimensions": LI, "all_cells": ("L", ("R", "CellNd"))}),
             Rec("GridCells2d", {"all_cells": ("L", ("R", "Cell2d"))}),
+            Rec("GridShape", {"_ndims": "Int"}),
         ],
         "fns": [
+            # the dispatch: which of `self._connect_cells_2d()` / `self._connect_cells_nd()` is called, as the tag 2 / 0
+            Fn("C07", "mesa/discrete_space/grid.py", "Grid._connect_cells", "connect_cells", {}, self_rec="GridShape",
+               effects={"self._connect_cells_2d": "Int", "self._connect_cells_nd": "Int"},
+               effect_tags={"self._connect_cells_2d": 2, "self._connect_cells_nd": 0}),
             # `cell.connect(self._cells[k], key)` is the effect (k, key): cells are named by their key in `_cells`
             Fn("C07", "mesa/discrete_space/grid.py", "Grid._connect_single_cell_2d", "connect_single_cell_2d",
                {"cell": ("R", "Cell2d"), "offsets": ("L", I2)}, self_rec="Grid2d",
@@ -88,9 +93,11 @@ GROUPS = {
         "path": "MesaModel/Gen/FnSteps.lean",
         "recs": [Rec("ModelRec", {"steps": "Int"})],
         "fns": [
-            # `self._user_step(*args, **kwargs)` is the effect "the user's step runs and sees self.steps = <value>"
+            # `self._user_step(*args, **kwargs)` is the effect "the user's step runs, sees self.steps = <value> and is handed
+            # these positional and keyword arguments" (keyword names coded as ints by the self-test: "k3" ↦ 3)
             Fn("C05", "mesa/model.py", "Model._wrapped_step", "wrapped_step", {}, self_rec="ModelRec",
-               state={"self.steps": "Int"}, snapshot={"self._user_step": ["self.steps"]}, ignore_calls=("_mesa_logger.info",)),
+               state={"self.steps": "Int"}, snapshot={"self._user_step": ["self.steps"]},
+               varargs={"args": LI, "kwargs": ("L", ("T", "Int", "Int"))}, ignore_calls=("_mesa_logger.info",)),
         ],
     },
 }
@@ -115,6 +122,7 @@ REGISTRY = {
         "lean_modules": ["MesaModel.Proofs.XlateDevs"],
         "theorems": ["Mesa.Devs." + t for t in (
             "C14_gen_CANCELED_eq_model", "C14_gen_lt_eq_model", "C14_gen_add_event_eq_model", "C14_gen_pop_event_eq_model",
+            "C14_gen_pop_event_fuel_adequate", "C14_pop_event_index_iff_generated",
             "C14_gen_len_eq_model", "C14_gen_is_empty_eq_model", "C14_add_event_generated", "C14_pop_event_generated",
             "C14_gen_peak_ahead_eq_model")],
     },
@@ -133,16 +141,16 @@ REGISTRY = {
     },
     "C07": {
         "groups": ["Cells"],
-        "functions": ["Grid._connect_single_cell_2d", "Grid._connect_single_cell_nd",
+        "functions": ["Grid._connect_cells", "Grid._connect_single_cell_2d", "Grid._connect_single_cell_nd",
                       "OrthogonalMooreGrid._connect_cells_nd", "OrthogonalVonNeumannGrid._connect_cells_nd",
                       "OrthogonalMooreGrid._connect_cells_2d", "OrthogonalVonNeumannGrid._connect_cells_2d",
                       "HexGrid._connect_cells_2d"],
         "lean_modules": ["MesaModel.Proofs.XlateCells"],
         "theorems": ["Mesa.Cells." + t for t in (
-            "C07_gen_connect_single_cell_2d_eq_model", "C07_gen_connect_single_cell_nd_eq_model",
+            "C07_gen_connect_cells_eq_model", "C07_gen_connect_single_cell_2d_eq_model", "C07_gen_connect_single_cell_nd_eq_model",
             "C07_gen_moore_connect_cells_nd_eq_model", "C07_gen_vn_connect_cells_nd_eq_model",
             "C07_gen_connect_cells_2d_eq_model", "C07_connect_spec_generated", "C07_offsets_spec_generated",
-            "C07_grid_connections_generated_2d", "C07_grid_connections_generated_nd")],
+            "C07_grid_connections_generated", "C07_grid_connections_generated_all")],
     },
 }
 
